@@ -180,7 +180,12 @@ func HC10_Illegal() {
 	rounds := 1 + vTier()
 	for r := 0; r < rounds; r++ {
 		d0 := x.digest()
-		x.illegalStep(vChoice("class", hNIllegal))
+		if r == 0 {
+			x.illegalStep(vChoice("class", hNIllegal))
+		} else {
+			// second failed call: fixed shapes (dead entity, duplicate id, second relation, bad count)
+			x.illegalStep([4]int{2, 5, 4, 6}[vChoice("class2", 4)])
+		}
 		vAssert(x.lastPan || true, "")
 		d1 := x.digest()
 		// failed graph walks may leave empty nodes / tables behind (visible only in Stats().Nodes, not part of the property)
